@@ -83,3 +83,14 @@ package tlstcp
 //@ func (*listener).Listen$1
 //@   before call:NewConnPipe#1 assert arg1.Self == l.proto.Self && arg1.Peer == l.proto.Peer && arg1.SelfName == l.proto.SelfName && arg1.PeerName == l.proto.PeerName && arg0 == conn
 //@   before call:Start#1 assert arg0 == p
+
+// ---- round 5b: Listen ----
+//@ func (*listener).Listen
+//@   ghost lerr = result1 at call:Listen#1
+//@   ghost cfg = l.config at call:Lock#1
+//@   before call:Listen#1 assert sel("select#1") != 0 && arg1 == "tcp" && arg2 == l.addr && cfg != nil
+//@   before call:NewListener#1 assert arg1 == cfg
+//@   ensures sel("select#1") == 0 ==> result == mangos.ErrClosed && !spawned("Listen$1") && !called("Listen")
+//@   ensures sel("select#1") != 0 && cfg == nil ==> result == mangos.ErrTLSNoConfig && !called("Listen")
+//@   ensures !isnil(result) ==> !spawned("Listen$1")
+//@   ensures isnil(result) ==> spawned("Listen$1") && called("NewListener")
